@@ -3,12 +3,11 @@
 //! diagnostics; a panic (caught by libFuzzer as a crash), abort or hang is a finding.
 use libfuzzer_sys::fuzz_target;
 
-/// crashes already recorded as known findings are excluded by construction (counted by the
+/// crashes already recorded as an OPEN known finding are excluded by construction (counted by the
 /// harness that launches the campaign): inputs nested deeper than this many brackets overflow the
-/// stack (KF-C16-2), and >= 12 consecutive `[` trigger the exponential list-type parse (KF-C16-1).
+/// stack (KF-C16-2).
 fn excluded(text: &str) -> bool {
-    let (mut depth, mut max_depth, mut run) = (0i32, 0i32, 0i32);
-    let mut max_run = 0;
+    let (mut depth, mut max_depth) = (0i32, 0i32);
     for c in text.chars() {
         match c {
             '(' | '[' | '{' => {
@@ -18,14 +17,8 @@ fn excluded(text: &str) -> bool {
             ')' | ']' | '}' => depth = (depth - 1).max(0),
             _ => (),
         }
-        if c == '[' {
-            run += 1;
-            max_run = max_run.max(run);
-        } else if !c.is_whitespace() {
-            run = 0;
-        }
     }
-    max_depth >= 120 || max_run >= 10 || text.matches("..").count() > 2 || text.contains("import")
+    max_depth >= 120 || text.matches("..").count() > 2 || text.contains("import")
 }
 
 fuzz_target!(|data: &[u8]| {
